@@ -644,8 +644,10 @@ class Topology(ABC):
         are violated.
         :return:
         """
-        # check nodes
+        # check nodes (facilities are listed separately from other nodes)
         for n in self.nodes.values():
+            n.validate_constraints()
+        for n in self.facilities.values():
             n.validate_constraints()
 
         check_num_instances = set()
